@@ -32,7 +32,7 @@ type C11Case struct {
 
 func genC11(rt *rapid.T, c *Ctx) C11Case {
 	o := spec.Opts{MinProv: 1, MaxProv: 8, MaxInjectors: 3, MaxFiles: 2, Adversarial: true}
-	o.Allow = spec.AllowAll("variadic")
+	o.Allow = spec.AllowAll()
 	for _, e := range c.KF.Entries {
 		if e.Property == "C11" && e.Status == "open" {
 			for _, t := range e.Trigger {
